@@ -32,7 +32,7 @@ Print Assumptions C01_qtm_bufsize_independent.
 (* ---- the container: Model/Cab.v, the executable model of cabd_open / cabd_extract for one cabinet (run against the C library
    on intact and damaged cabinets by tools/props/C01.py) ---- *)
 From Coq Require Import ZArith.
-From MSP Require Import Gen.Consts Model.Cab Proofs.Sim Proofs.CabP Proofs.CabHdrP Props.CabSample.
+From MSP Require Import Gen.Consts Model.Cab Proofs.Sim Proofs.CabP Proofs.CabSlice Proofs.CabHdrP Props.CabSample.
 
 (* cabd_sys_read on a folder whose data area holds well-formed CFDATA blocks (checksum absent or right, sizes within limits,
    per-block reserve skipped): every call delivers the next bytes of the concatenated payloads (plus Quantum's trailer byte),
@@ -80,6 +80,19 @@ Theorem C01_mszip_member_is_ideal_decode : forall file par cab, 0 < p_bufsize pa
   exists st', extract file par cab cs_init f = (MSPACK_ERR_OK, rev (iout i2), st').
 Proof. exact mszip_extract. Qed.
 Print Assumptions C01_mszip_member_is_ideal_decode.
+
+(* the member is a slice of the folder: ONE ideal run of the MSZIP port over the folder's payloads for offset + length bytes;
+   extract() returns the bytes [offset, offset + length) of what that run writes, and that slice has exactly the member's length.
+   (block reader + buffered interpreter + the decoder's resumability and output accounting, Proofs/CabSlice.v) *)
+Theorem C01_mszip_member_is_slice_of_folder_decode : forall file par cab, 0 < p_bufsize par -> forall fo f pre bs post zf iF,
+  nth_error (c_folders cab) (N.to_nat (fi_folder f)) = Some fo -> ctype (fo_comp fo) = cffoldCOMPTYPE_MSZIP -> prechecks par fo f = true ->
+  file = pre ++ encs bs ++ post -> fo_offset fo = Z.of_N (Chm.len pre) -> N.of_nat (length bs) = fo_nblocks fo -> Forall (wf_blk (c_bres cab)) bs ->
+  fi_len f <> 0 ->
+  ideal EofPad2 0 (Mszip.zcall (fi_off f + fi_len f) Mszip.zinit) {| irest := pays (fo_comp fo) bs ++ pad EofPad2; iout := [] |} = (SVal (MSPACK_ERR_OK, false, zf), iF) ->
+  exists st', extract file par cab cs_init f = (MSPACK_ERR_OK, skipn (N.to_nat (fi_off f)) (rev (iout iF)), st') /\
+              N.of_nat (length (skipn (N.to_nat (fi_off f)) (rev (iout iF)))) = fi_len f.
+Proof. exact mszip_member_is_slice. Qed.
+Print Assumptions C01_mszip_member_is_slice_of_folder_decode.
 
 (* the same for Quantum folders (every block followed by the trailer byte the block reader adds) *)
 Theorem C01_quantum_member_is_ideal_decode : forall file par cab, 0 < p_bufsize par -> forall fo f pre bs post q1 i1 q2 i2,
